@@ -470,6 +470,7 @@ class TermCanvas(Canvas):
         self.reset_scroll()
 
         x, y = self.constrain_coords(x, y)
+        self.is_rotten_cursor = False
         self.set_term_cursor(x, y)
 
         # extend tabs
@@ -705,6 +706,7 @@ class TermCanvas(Canvas):
         elif not dc and char == b"\t":  # char tab
             self.tab()
         elif not dc and char == b"\b":  # backspace BS
+            self.is_rotten_cursor = False
             if x > 0:
                 self.set_term_cursor(x - 1, y)
         elif not dc and char == b"\a" and self.parsestate != 2:  # BEL
@@ -783,9 +785,11 @@ class TermCanvas(Canvas):
             else:
                 y += 1
 
+        self.is_rotten_cursor = False
         self.set_term_cursor(x, y)
 
     def carriage_return(self) -> None:
+        self.is_rotten_cursor = False
         self.set_term_cursor(0, self.term_cursor[1])
 
     def newline(self) -> None:
@@ -820,6 +824,7 @@ class TermCanvas(Canvas):
         elif self.modes.constrain_scrolling:
             y += self.scrollregion_start
 
+        self.is_rotten_cursor = False
         self.set_term_cursor(x, y)
 
     def push_char(self, char: bytes | None, x: int, y: int) -> None:
@@ -882,6 +887,7 @@ class TermCanvas(Canvas):
             return
 
         x, y = self.saved_cursor
+        self.is_rotten_cursor = False
         self.set_term_cursor(x, y)
 
         if with_attrs and self.saved_attrs is not None:
@@ -957,6 +963,8 @@ class TermCanvas(Canvas):
 
         x, y = position
         chars = min(chars, self.width - x)
+        if char is None:
+            self.is_rotten_cursor = False
 
         while chars > 0:
             self.term[y].insert(x, char_spec)
@@ -977,6 +985,7 @@ class TermCanvas(Canvas):
 
         x, y = position
         chars = min(chars, self.width - x)
+        self.is_rotten_cursor = False
 
         while chars > 0:
             self.term[y].pop(x)
@@ -998,6 +1007,7 @@ class TermCanvas(Canvas):
             return  # below the scrolling region: ignored
 
         lines = min(max(lines, 1), self.scrollregion_end - row + 1)
+        self.is_rotten_cursor = False
 
         while lines > 0:
             self.term.pop(self.scrollregion_end)
@@ -1019,6 +1029,7 @@ class TermCanvas(Canvas):
             return  # below the scrolling region: ignored
 
         lines = min(max(lines, 1), self.scrollregion_end - row + 1)
+        self.is_rotten_cursor = False
 
         while lines > 0:
             self.term.pop(row)
@@ -1311,6 +1322,7 @@ class TermCanvas(Canvas):
             self.scrollregion_start = self.constrain_coords(0, top - 1, ignore_scrolling=True)[1]
             self.scrollregion_end = self.constrain_coords(0, bottom - 1, ignore_scrolling=True)[1]
 
+            self.is_rotten_cursor = False
             self.set_term_cursor(0, 0)
 
     def csi_clear_tabstop(self, mode: Literal[0, 3] = 0):
